@@ -35,7 +35,19 @@ def corpus():
     for arg in ["../..", "../../..", "../../x", "x/../../..", "...", "a/..../b", "....", "../..", "a/./../b", "/..", "a/", "/", "//", "a//b", ".a", "a.", "a..b", "..a", ".", "..", "é/../日", "x.tar.gz", ".hidden", "a/.b.c"]:
         for b in ["", "a/b.c", "abc/d", "ab/cde/f", "é日/x", "日本/d"]:
             add_ops(c, b, arg)
-    return [c]
+    # long arguments, valid and rejected, with a multi-byte character around every byte offset from 250 to 262 (a
+    # rejected argument is carried in the error: formatting or shortening it must not trip over a character boundary)
+    c2 = vfx.Case("c06long")
+    c2.base("mem")
+    c2.fs("base", 0)
+    for L in range(248, 264):
+        for tail in ("/", "", "/x", "//"):
+            for b in ["", "é日/x"]:
+                add_ops(c2, b, "a" * L + "é" + tail)
+    for arg in ["ä/" * 100, "ä/" * 130 + "x", "/" + "日" * 90 + "/", "x" * 300, ("ab/" * 100) + ".."]:
+        for b in ["", "a/b.c"]:
+            add_ops(c2, b, arg)
+    return [c, c2]
 
 
 def add_ops(c, base, arg):
